@@ -749,7 +749,7 @@ func (in *Interp) call(caller *frame, pos token.Pos, fn Value, args []Value) Val
 }
 
 func (in *Interp) callSSA(caller *frame, pos token.Pos, fn *ssa.Function, args []Value, env []Value) Value {
-	if r, ok := in.replace[fn.String()]; ok && (caller == nil || caller.fn != r) {
+	if r, ok := in.replace[fn.String()]; ok && (caller == nil || caller.fn != r) && in.ex.fixed == nil {
 		in.ex.stats.Stubs["replaced: "+fn.String()+" -> "+r.String()] = true
 		fn = r
 	}
